@@ -53,11 +53,13 @@ Qed.
 
 Lemma ggrad_eqb_eq a b : ggrad_eqb a b = true <-> a = b.
 Proof.
-  destruct a as [x s|x], b as [y s'|y]; simpl; split; intros H; try reflexivity; try discriminate.
+  destruct a as [x s|x|m K], b as [y s'|y|m' K']; simpl; split; intros H; try reflexivity; try discriminate.
   - apply andb_true_iff in H as [H1 H2]. apply qcl_eqb_eq in H1. apply tsel_eqb_eq in H2. congruence.
   - inversion H; subst. apply andb_true_iff; split; [apply qcl_eqb_eq | apply tsel_eqb_eq]; reflexivity.
   - apply natll_eqb_eq in H. congruence.
   - inversion H; subst. apply natll_eqb_eq. reflexivity.
+  - apply andb_true_iff in H as [H1 H2]. apply Nat.eqb_eq in H1. apply qcll_eqb_eq in H2. congruence.
+  - inversion H; subst. apply andb_true_iff; split; [apply Nat.eqb_eq | apply qcll_eqb_eq]; reflexivity.
 Qed.
 
 Lemma opt_eqb_eq {A} (eqb : A -> A -> bool) :
